@@ -46,6 +46,7 @@ type lkCtrl struct {
 	Prefix string    `json:"prefix"`
 	File   string    `json:"file"`
 	Routes []lkRoute `json:"routes"`
+	NoTag  bool      `json:"noTag,omitempty"` // the controller carries no @Tag (a warning, not an error)
 	Group  bool      `json:"group,omitempty"`
 }
 
@@ -298,7 +299,7 @@ func lkGenRoute(t *rapid.T, idx int, file string) lkRoute {
 }
 
 var lkPertKinds = []string{"dropAnn", "dupAnn", "renameRef", "retarget", "strayAnn", "aliasUnknown", "aliasDup", "dupTemplateName", "unboundTemplateName",
-	"aliasWrongType", "prefixParam", "pathNotInTemplate", "extraParam", "twoBodies", "bodyAndForm", "retype", "bodyPrimitive", "results", "verb", "changeKind", "neutralAlias", "secCollision", "reorderAnns", "bodyAndForm", "secondBinding", "aliasWrongTypeAll", "aliasWrongTypeGhost", "siblingConflict"}
+	"aliasWrongType", "prefixParam", "pathNotInTemplate", "extraParam", "twoBodies", "bodyAndForm", "retype", "bodyPrimitive", "results", "verb", "changeKind", "neutralAlias", "secCollision", "reorderAnns", "bodyAndForm", "secondBinding", "aliasWrongTypeAll", "aliasWrongTypeGhost", "siblingConflict", "dropTag"}
 
 func lkGen(t *rapid.T) lkModel {
 	var m lkModel
@@ -333,8 +334,16 @@ func lkSweep() []lkModel {
 	var out []lkModel
 	seen := map[string]bool{}
 	kinds := map[string]bool{}
+	example := 0
 	for base := 0; base < 2; base++ {
-		m := rapid.Custom(lkGen).Example(base + 1)
+		var m lkModel
+		for { // base projects with two controllers (in two files): some diagnostics depend on which file was visited last
+			example++
+			m = rapid.Custom(lkGen).Example(example)
+			if len(m.Ctrls) == 2 || example > 40 {
+				break
+			}
+		}
 		m.Perts = nil
 		for _, kind := range lkPertKinds {
 			if base == 0 && kinds[kind] {
@@ -489,6 +498,12 @@ func lkApply(m lkModel) ([]lkCtrl, []string) {
 				}
 				r.Anns[j].Alias = b
 				applied = append(applied, "aliasDup:"+b)
+			}
+		case "dropTag":
+			// neutral for linkage: the controller loses its @Tag, which gleece reports as a warning on the controller
+			if !c.NoTag {
+				c.NoTag = true
+				applied = append(applied, "dropTag:"+c.Name)
 			}
 		case "siblingConflict":
 			// neutral for linkage: a second, well-linked route of the same verb that overlaps this one (the last {name}
@@ -739,6 +754,9 @@ func lkProject(ctrls []lkCtrl, noise []int) *projgen.Project {
 	for _, c := range ctrls {
 		tag := c.Name
 		pc := &projgen.Controller{Name: c.Name, Pkg: "api", File: c.File, Tag: &tag, Route: c.Prefix, HasRoute: true, Grouped: c.Group}
+		if c.NoTag {
+			pc.Tag = nil
+		}
 		for _, r := range c.Routes {
 			sig, imps := r.signature()
 			pc.Methods = append(pc.Methods, &projgen.Method{Name: r.Name, File: r.File, Verb: r.Verb, Route: r.Route, RawDoc: r.docLines(), RawSig: sig, RawImports: imps})
